@@ -16,7 +16,7 @@ P = {
  "C04": (True, "explicit-state enumeration of the response mutation LTS on the real ClientLogin::finish (depth 1 complete + 1- and 2-field splices)",
          "Every single-byte substitution (thorough: all offsets x 255 values), every 1-/2-field splice from 8 donor responses, whole-response swaps and the reflected element are applied to the genuine response of an honest login; oracle: anything that does not decode to the genuine object is rejected.", "3/C04"),
  "C05": (True, "bounded exhaustive exploration of (registration, server, client) parameter triples against a ghost oracle from the specification",
-         "Five families of 10-slot parameter triples (deviation-bounded around matched families, all 28x28 boundary-shifted splits, all pairs of long values differing in length/last byte, all credential-id pairs; thorough: full 250k product on 2 suites) are run on the real code; ghost oracle: accept iff effective identities, contexts and credential ids agree.", "3/C05"),
+         "Five families of 10-slot parameter triples (deviation-bounded around matched families, all 28x28 boundary-shifted splits, all pairs of long values differing in length/last byte, aliases under a mis-encoded length prefix of a 255..513-byte context or client identity, all credential-id pairs; thorough: full 250k product on 2 suites) are run on the real code; ghost oracle: accept iff effective identities, contexts and credential ids agree.", "3/C05"),
  "C06": (True, "exhaustive enumeration of (registration setting, serving setup, impostor identity choice) on the real login path",
          "The stolen password file is served by the genuine setup and by 4 spliced/unrelated setups under every identity choice of the serving party, over 36 registration/context settings x 20 suites; oracle: only the genuine setup is accepted and the reported keys equal its key.", "3/C06"),
  "C07": (True, "explicit-state model checking: complete adversarial routing product + BFS over all call interleavings on a shared RNG (own explorer, stateright cross-count)",
